@@ -113,6 +113,17 @@ pub fn gen_script(rng: &mut Rng, level: usize) -> Vec<HAction> {
         .collect()
 }
 
+
+/// how the application hands over its handler (RecProc::pform): mostly a struct; a function through the blanket impl for any
+/// set; `RawCommand::processor(closure)` where the script never returns anything but sink errors and nothing is parsed
+pub fn gen_pform(rng: &mut Rng, set: SetKind, script: &[HAction]) -> u8 {
+    match rng.below(10) {
+        0 | 1 => 2,
+        2 | 3 if set == SetKind::Raw && script.iter().all(|a| !a.reject) => 1,
+        _ => 0,
+    }
+}
+
 /// a scalar value >= U+0080 of a uniformly chosen encoded length
 pub fn random_scalar(rng: &mut Rng) -> char {
     loop {
@@ -280,7 +291,9 @@ pub fn gen_session(rng: &mut Rng, p: &Profile) -> (SessionCfg, Vec<Op>) {
         use_new: rng.chance(5),
         chunk: if p.chunked_sink && rng.chance(15) { rng.range(1, 3) } else { 0 },
         script: gen_script(rng, p.handler_level),
+        pform: 0,
     };
+    let cfg = SessionCfg { pform: gen_pform(rng, cfg.set, &cfg.script), ..cfg };
     let mut dict: Vec<String> = set.names();
     dict.push("help".into());
     let weights = [
@@ -436,7 +449,9 @@ pub fn gen_large_session(rng: &mut Rng, p: &Profile) -> (SessionCfg, Vec<Op>) {
         use_new: rng.chance(5),
         chunk: if p.chunked_sink && rng.chance(10) { rng.range(1, 3) } else { 0 },
         script: gen_script(rng, p.handler_level),
+        pform: 0,
     };
+    let cfg = SessionCfg { pform: gen_pform(rng, cfg.set, &cfg.script), ..cfg };
     let any_prompt = |rng: &mut Rng| if rng.chance(40) { rng.range(SMALL_PROMPTS, PROMPTS.len() - 1) } else { rng.below(SMALL_PROMPTS) };
     let mut ops: Vec<Op> = Vec::new();
     let bytes = |ops: &mut Vec<Op>, b: &[u8]| ops.extend(b.iter().map(|&x| Op::Byte(x)));
